@@ -1,7 +1,9 @@
 """C15 - vnadata_t behaves like a typed frequency x rows x columns array with z0 modes.
 
-1. Proof obligations: coq/Data/DataProofs.v and coq/Properties_C15.v (invariant for every
-   reachable state, refinement to the abstract array specification, index refusal, z0 mode rules).
+1. Proof obligations: coq/Data/DataProofs.v, RefineProofs.v, InterleaveProofs.v and
+   coq/Properties_C15.v (invariant for every reachable state, refinement of all 32 operations to the
+   abstract array specification, type rule = the manual's rule, index refusal, z0 mode rules,
+   faults exactly past a short caller vector, the same after interleaved conversions).
 2. Tie: the extracted model (ocaml/drv_data) and the real library (harness/data_harness.c, ASan +
    UBSan + LSan) execute the same operation scripts; transcripts (return class, errno class,
    callbacks, payload, digest through every public getter, allocation sizes, count of non-initial
@@ -10,7 +12,15 @@
    random histories.
 3. A first difference is shrunk by delta debugging, classified (which candidate defect of the code
    as found explains it, if any) and reported as a violation with the script as replay.
+4. Caller vectors (tie of DataModel.short_vector / step_chk): directed and random calls of the five
+   vector-taking setters with a heap buffer of exactly N elements (harness op names with '!'),
+   N below, at and above the documented length, with valid and invalid indices; the model
+   (Eval vm_compute of step_chk) says RFault exactly when the sanitizer build reports a
+   heap-buffer-overflow READ, ok / fail otherwise.
+The library and the harness are built without VNADATA_NO_BOUNDS_CHECK (the inline accessors of
+vnadata.h compile their index tests out under that macro; the property is about the default build).
 """
+import re
 import itertools
 import os
 import random
@@ -102,6 +112,117 @@ def report(ctx, runner, ops, d, origin):
             f.write("# minimised by checks/C15.py (%s)\n" % origin + "\n".join(small) + "\n")
 
 
+# ---------------------------------------------------------------- caller vectors (step_chk)
+# (prefix script, [(op, index args, documented length of the vector at that state)])
+VEC_STATES = [
+    (["0 init 1 2 2 3"], {"setfv": 3, "setmat": 4, "setfromvec": 3, "setz0v": 2, "setfz0v": 2}, (2, 2, 3)),
+    (["0 init 1 3 3 2", "0 resize 1 2 2 1"], {"setfv": 1, "setmat": 4, "setfromvec": 1, "setz0v": 2, "setfz0v": 2}, (2, 2, 1)),
+    (["0 init 0 2 3 2", "0 setfz0 1 2 9,0"], {"setfv": 2, "setmat": 6, "setfromvec": 2, "setz0v": 3, "setfz0v": 3}, (2, 3, 2)),
+    (["0 init 10 1 3 1", "0 addfreq 7"], {"setfv": 2, "setmat": 3, "setfromvec": 2, "setz0v": 3, "setfz0v": 3}, (1, 3, 2)),
+    (["0 init 0 0 0 2"], {"setfv": 2, "setmat": 0, "setfromvec": 2, "setz0v": 0, "setfz0v": 0}, (0, 0, 2)),
+    (["0 resize 0 2 1 0"], {"setfv": 0, "setmat": 2, "setfromvec": 0, "setz0v": 2, "setfz0v": 2}, (2, 1, 0)),
+]
+COQ_OPS = {"init": "OInit Z %s %s %s %s", "resize": "OResize Z %s %s %s %s", "addfreq": "OAddFreq Z %s",
+           "setfz0": "OSetFz0 Z %s %s %s"}
+
+
+def zlit(x):
+    x = int(str(x).split(",")[0])
+    return "(%d)%%Z" % x
+
+
+def coq_prefix(lines):
+    out = []
+    for l in lines:
+        p = l.split()
+        out.append("(" + COQ_OPS[p[1]] % tuple(zlit(a) for a in p[2:]) + ")")
+    return "[" + "; ".join(out) + "]"
+
+
+def vec_cases(rng, quick):
+    """-> list of (prefix lines, harness op line, Coq op term).  Values are small integers."""
+    cases = []
+
+    def add(prefix, op, idx, n):
+        vals = [rng.randint(1, 9) for _ in range(n)]
+        line = "0 %s! %s%d %s" % (op, "".join("%d " % i for i in idx), n, " ".join("%d,0" % v for v in vals))
+        lst = "[" + "; ".join(zlit(v) for v in vals) + "]"
+        cons = {"setfv": "OSetFreqVec Z %s", "setmat": "OSetMatrix Z %s %s", "setfromvec": "OSetFromVec Z %s %s %s",
+                "setz0v": "OSetZ0Vec Z %s", "setfz0v": "OSetFz0Vec Z %s %s"}[op]
+        cases.append((prefix, line.strip(), "(" + cons % tuple([zlit(i) for i in idx] + [lst]) + ")"))
+
+    for prefix, need, (r, c, f) in VEC_STATES:
+        for op, k in sorted(need.items()):
+            if op == "setmat" or op == "setfz0v":
+                good, bad = [[0], [f - 1]], [[f], [-1]]
+            elif op == "setfromvec":
+                good, bad = [[0, 0], [r - 1, c - 1]], [[r, 0], [0, c], [-1, 0]]
+            else:
+                good, bad = [[]], []
+            good = [g for g in good if all(x >= 0 for x in g)]
+            for n in sorted(set(x for x in (k - 1, k, k + 1, 1) if x >= 1)):
+                for g in good[:1 if quick else 2]:
+                    add(prefix, op, g, n)
+            for b in bad:
+                add(prefix, op, b, 1)          # refused before the vector is read: no fault
+    return cases
+
+
+def caller_vectors(ctx, runner):
+    cases = vec_cases(ctx.rng, ctx.tier == "quick")
+    src = ["Require Import List ZArith.", "Require Import LV.Data.DataModel.", "Import ListNotations.",
+           "Definition st l := run Z 0%Z 50%Z fixed (vd_alloc Z 0%Z 50%Z) l.",
+           "Definition chk l o := (short_vector Z (st l) o, match o_ret Z (snd (step_chk Z 0%Z 50%Z fixed (st l) o)) "
+           "with ROk => 0 | RFail => 1 | RFault => 2 end).",
+           "Eval vm_compute in ["]
+    src.append(";\n".join("chk %s %s" % (coq_prefix(p), o) for p, _, o in cases))
+    src.append("].")
+    rc, out, err = ctx.coq_eval("c15_vec_cases", "\n".join(src) + "\n")
+    got = re.findall(r"\(\s*(true|false)\s*,\s*(\d)\s*\)", out)
+    if rc != 0 or len(got) != len(cases):
+        ctx.obligation("tie:caller_vector_reads", False, "model evaluation failed: %s" % (err or out)[-300:])
+        ctx.unproved("tie:caller_vector_reads", "coqc could not evaluate step_chk on the cases", "%d cases" % len(cases))
+        return
+    bad = 0
+    nfault = 0
+    env = ctx.run_env(leak=True)
+    env["ASAN_OPTIONS"] += ":symbolize=0"
+    seen = set()
+    for (prefix, line, coqop), (short, ret) in zip(cases, got):
+        want = {"0": "ok", "1": "fail", "2": "fault"}[ret]
+        if (short == "true") != (want == "fault"):
+            want = "inconsistent-model"
+        script = "\n".join(prefix + [line]) + "\n"
+        # own process per case; the report is classified by its first line, no symbolizer needed
+        rc, out, err = vplib.sh([runner.exe, "run"], input=script, timeout=120, env=env)
+        rl = [l.split() for l in out.split("\n") if l.startswith("R ")]
+        san = vplib.asan_signature(err) if rc != 0 else None
+        if rc == 0 and len(rl) == len(prefix) + 1:
+            have = rl[-1][1]
+        elif san and san.get("error") == "heap-buffer-overflow" and len(rl) == len(prefix) and "READ of size" in err:
+            have = "fault"
+        else:
+            have = "other:%s" % (san or rc)
+        ctx.count(("callervec", line.split()[1], want))
+        nfault += want == "fault"
+        if have != want:
+            bad += 1
+            key = (line.split()[1], want, have.split(":")[0])
+            if key in seen:
+                continue                    # one report per (op, model verdict, implementation verdict)
+            seen.add(key)
+            ctx.violation({"kind": "caller_vector", "op": line.split()[1], "model": want, "impl": have.split(":")[0]},
+                          "vnadata: `%s` after %s: model (step_chk) says %s, implementation %s"
+                          % (line, prefix, want, have),
+                          {"script": prefix + [line], "model_term": coqop, "sanitizer": err[-800:],
+                           "how": "data_harness run < script (own process); Eval vm_compute of DataModel.step_chk"})
+    ctx.traces_validated += len(cases)
+    ctx.extra["caller_vector_cases"] = {"total": len(cases), "model_fault": nfault}
+    ctx.obligation("tie:caller_vector_reads", bad == 0 and nfault > 0,
+                   "%d cases (%d over-reads predicted), %d differ" % (len(cases), nfault, bad))
+    ctx.log("caller vectors: %d cases, %d predicted over-reads, %d differ" % (len(cases), nfault, bad))
+
+
 def run_batch(ctx, runner, seqs, origin):
     """seqs: list of op lists; run them in one process each side (separated by reset).  On a
     difference, isolate the sequence, report it, and continue with the rest."""
@@ -144,19 +265,32 @@ def run(ctx):
         "Coq 8.16.1 kernel; vm_compute for the concrete examples and refutation witnesses",
         "axioms: none (Print Assumptions of every theorem of Properties_C15.v: Closed under the global context)",
         "hand-written model coq/Data/DataModel.v (checked-memory model of vnadata_alloc.c, vnadata.h accessors, z0 files), "
-        "tied to the implementation by op-script correspondence on every run",
+        "tied to the implementation by op-script correspondence on every run; the specification coq/Data/ArraySpec.v "
+        "(abstract array, type rule dims_fit, documented vector lengths) is read against vnadata(3) by hand",
         "extraction (ExtrOcamlBasic) + ocaml/drv_data.ml glue; harness/data_harness.c; gcc ASan/UBSan/LSan",
         "the format string is an opaque token (6 canonical strings); allocation failure is not modelled here (C12)",
     ]
     ctx.assumptions = ["values are abstract (0, 50 and literals); int arguments are unbounded integers with an explicit "
                        "range guard on rows*columns",
-                       "both objects are valid pointers returned by vnadata_alloc (NULL / bad magic arguments not exercised)"]
+                       "both objects are valid pointers returned by vnadata_alloc (NULL / bad magic arguments not exercised)",
+                       "callers pass vectors of at least the documented length (premise vec_ok of the refinement theorems; "
+                       "a shorter buffer is an over-read: model RFault, ASan report, tied by the caller-vector cases)",
+                       "default build: VNADATA_NO_BOUNDS_CHECK is not defined (with it the inline accessors have no index tests)"]
     ctx.rule = ("one evaluation = one operation executed by model and implementation with equal outcome and digest; "
                 "distinct non-trivial = distinct (op name, return class, type, rows, cols, freqs, z0 mode) tuples observed")
     quick = ctx.tier == "quick"
 
-    ok, res = ctx.coq_obligations(["Data/DataProofs.v", "Properties_C15.v"])
+    ok, res = ctx.coq_obligations(["Data/DataProofs.v", "Data/RefineProofs.v", "Data/InterleaveProofs.v",
+                                   "Properties_C15.v"])
     runner = datalib.Runner(ctx)
+    # the index tests of the inline accessors exist only without VNADATA_NO_BOUNDS_CHECK; were it
+    # defined, the index-refusal cases of the correspondence below are the concrete failing inputs
+    nbc = vnadata_no_bounds_check_defined(ctx)
+    ctx.obligation("build:bounds_checks_compiled_in", not nbc,
+                   "VNADATA_NO_BOUNDS_CHECK %s" % ("is defined in the build" if nbc else "not defined"))
+
+    # ---------------------------------------------------------------- caller vectors
+    caller_vectors(ctx, runner)
 
     # ---------------------------------------------------------------- corpus + directed
     seqs = []
@@ -210,9 +344,25 @@ def run(ctx):
     ctx.extra.pop("_seen", None)
     new = unknown_violations(ctx)
     ctx.obligation("tie:data_model_vs_implementation", not new, "%d differing sequences" % len(new))
+    if nbc and not new:
+        ctx.unproved("build:bounds_checks_compiled_in", "VNADATA_NO_BOUNDS_CHECK is defined: the inline accessors "
+                     "have no index tests", "corpus, exhaustive and random index cases")
     if not ok and not new:
         ctx.unproved("Properties_C15", "Coq build failed: " + getattr(ctx, "_last_coq_log", "")[-400:],
                      "%d random histories, %d exhaustive sequences, corpus" % (len(rnd), len(ex)))
+
+
+def vnadata_no_bounds_check_defined(ctx):
+    """The places a definition could come from: the check's config.h and the repo's vnadata headers
+    (the compiler command line of vplib.build_harness has no -D for it)."""
+    for p in (os.path.join(vplib.VERIF, "harness", "cfg", "config.h"),
+              os.path.join(ctx.repo, "src", "vnadata.h"), os.path.join(ctx.repo, "src", "vnadata_internal.h")):
+        try:
+            if re.search(r"^\s*#\s*define\s+VNADATA_NO_BOUNDS_CHECK", open(p).read(), flags=re.M):
+                return True
+        except OSError:
+            pass
+    return False
 
 
 def unknown_violations(ctx):
